@@ -5,7 +5,7 @@ From TX Require Import Base.Threads Base.Val Model.TunnelOpen Model.TunnelRace M
    ack: 0 none 1 success 2 failure;  role: 0 not attached, 1 source of the existing bridge, 2 target of the existing
    bridge, 3 source of a new bridge, 4 forwarded to the tunnel's node *)
 Definition dec_variant (v : tval) : variant :=
-  {| v_validate_first := vbool (vnth 0 v); v_secret_isvalid := vbool (vnth 1 v) |}.
+  {| v_validate_first := vbool (vnth 0 v); v_secret_isvalid := vbool (vnth 1 v); v_wait_agree := true |}.
 Definition dec_mstate (k : N) : t_mstate :=
   match k with 0 => MActive | 1 => MRevoked | 2 => MExpired | 3 => MInactive | 4 => MMissing | 5 => MExp25s | 6 => MExp10s
              | 7 => MExp2s | 8 => MExp1ms | _ => MSoon60s end%N.
@@ -27,7 +27,7 @@ Definition expected (o : outcome) : N * N :=
   | AttachTarget => (1, 2)
   | NewBridge => (1, 3)
   | Forward => (1, 4)
-  | WaitLocal => (0, 5)
+  | WaitLocal => (0, 8)
   | AckNoAttach => (1, 0)
   | Parked => (1, 6)
   end%N.
@@ -41,7 +41,7 @@ Open Scope N_scope.
    case value: [ [validate_first; secret_isvalid] ; [99; routing] ; steps ; obs ]
    step: open  [0; who (0 none 1 half 2 L 3 T 4 S 5 X); mid (0 none 1 m1 2 m2); secret (0 none 1 right 2 wrong); tun; registered]
          setm  [1; m; state (0 active 1 revoked 2 expired 3 inactive 4 missing)]
-         route [2; tun; node (0 remove, 1 the other node); m]      close [3; tun]      sleep [4]
+         route [2; tun; node (0 remove, 1 the other node, 2 THIS node: a record without a local bridge); m]      close [3; tun]      sleep [4]
          srv   [5; tun]   the server itself starts a tunnel on mapping 3 (StartServerTunnel; source = the server's own connection 999)
    obs per step: [ack; role; snapshot]; snapshot = [b0; mid0; src0; tgt0; b1; mid1; src1; tgt1; forwarded tunnels; parked]
    connection of step i is connref i+1; tunnels are 7 and 8; clients L=11 T=12 S=13 X=14; M1=(11,12,101) M2=(13,14,102);
@@ -60,7 +60,8 @@ Definition h_req (mid sec tun : N) : request :=
 Definition h_cfg (routing : bool) : config := {| cfg_self := 1; cfg_crossnode := routing; cfg_routing := routing |}.
 
 Definition resolve_all (v : variant) (cfg : config) (s : sys) : sys :=
-  fold_left (fun s' cr => step v cfg s' (EResolve cr)) (map (fun p => fst (fst p)) (s_park s)) s.
+  let s1 := fold_left (fun s' cr => step v cfg s' (EResolve cr)) (map (fun p => fst (fst p)) (s_park s)) s in
+  fold_left (fun s' cr => step v cfg s' (EWaitResolve cr)) (map (fun p => fst (fst p)) (s_wait s1)) s1.
 
 Definition optn (o : option N) : N := match o with Some x => x | None => 0 end.
 Definition snap_tun (s : sys) (t : tid) : list N :=
@@ -71,7 +72,7 @@ Definition snap_tun (s : sys) (t : tid) : list N :=
 Definition snapshot (s : sys) : list N :=
   snap_tun s 7 ++ snap_tun s 8 ++
   [ (if existsb (fun p => N.eqb (snd p) 7) (s_fwd s) then 1 else 0) + (if existsb (fun p => N.eqb (snd p) 8) (s_fwd s) then 1 else 0);
-    N.of_nat (length (s_park s)) ].
+    N.of_nat (length (s_park s) + length (s_wait s)) ].
 
 (* one history step: (ack, role) of an open as decided on the state before it, then the state after it and the polls *)
 Definition h_step (v : variant) (cfg : config) (s : sys) (i : N) (st : tval) : (N * N) * sys :=
@@ -81,10 +82,10 @@ Definition h_step (v : variant) (cfg : config) (s : sys) (i : N) (st : tval) : (
          let r := h_req b c d in
          (expected (open v cfg (s_db s) (s_tun s) (s_rt s) cid r), resolve_all v cfg (step v cfg s (EOpen (i + 1) cid r)))
   | 1 => ((0, 0), resolve_all v cfg (step v cfg s (ESetMapping a (h_mapping a (h_state b)))))
-  | 2 => ((0, 0), resolve_all v cfg (step v cfg s (ESetRoute (7 + a) (if N.eqb b 0 then None else Some {| ro_node := 2; ro_mid := c |}))))
+  | 2 => ((0, 0), resolve_all v cfg (step v cfg s (ESetRoute (7 + a) (if N.eqb b 0 then None else Some {| ro_node := (if N.eqb b 2 then 1 else 2); ro_mid := c |}))))
   | 3 => ((0, 0), resolve_all v cfg (step v cfg s (ECloseBridge (7 + a))))
   | 5 => ((0, 0), resolve_all v cfg (mkSys (s_db s) (upd (s_tun s) (7 + a) (Some {| b_mid := 3; b_src := Some 999; b_tgt := None |}))
-                                            (rt_register cfg (s_rt s) (7 + a) 3) (s_fwd s) (s_log s) (s_park s)))
+                                            (rt_register cfg (s_rt s) (7 + a) 3) (s_fwd s) (s_log s) (s_park s) (s_wait s)))
   | _ => ((0, 0), s)
   end.
 
